@@ -433,6 +433,10 @@ class POXCore (EventMixin):
       if o not in self._go_up_deferrals:
         raise RuntimeError("This deferral has already been executed")
       self._go_up_deferrals.remove(o)
+      if self.starting_up:
+        # goUp() hasn't been called yet: there is nothing to continue.
+        # It will find that it doesn't have to wait for this deferral.
+        return
       if not self._go_up_deferrals:
         log.debug("Continuing to go up")
         self._goUp_stage2()
